@@ -35,6 +35,7 @@ func checkC07(ctx *Ctx, r *Report) {
 	c07Merge(ctx, r)
 	c07HuntedRules(ctx, r)
 	c07ReferenceByBareName(ctx, r)
+	c07SecondHunt(ctx, r)
 	c07CallbackState(ctx, r)
 	c18Payloads(ctx, r)
 	stickyErrors(ctx, r, "errflow/sticky", func(p *packages.Package) bool {
@@ -1413,4 +1414,188 @@ func c07ReferenceByBareName(ctx *Ctx, r *Report) {
 		})
 	})
 	r.Count("single-schema lookups of references", n)
+}
+
+// c07SecondHunt — (a) FlattenDisjunctions resolves branches inside the very schemas the visitor is rewriting: what it
+// finds there is flattened or not depending on the order of inputs and objects. The result is independent of that
+// order only if the unfolding is transitive: the branches of a resolved disjunction go back through the function that
+// unfolds (a recursive closure), never straight into the result. (b) compose builds one builder per composable
+// *package*: the key of the groups derives from the builder's package, not from the schema identifier, which two
+// packages can share. (c) a jenny receives languages.Context by value and shares the slices it holds with every other
+// jenny: sorting one of them in place changes what the jennies that run later see.
+func c07SecondHunt(ctx *Ctx, r *Report) {
+	// (a)
+	if fn := ctx.LookupMethod("internal/ast/compiler", "FlattenDisjunctions", "flattenDisjunction"); fn == nil {
+		r.Undecided("anchor lost: FlattenDisjunctions.flattenDisjunction")
+	} else {
+		fd, p := ctx.DeclOf(fn)
+		info := p.TypesInfo
+		recursive := false
+		ast.Inspect(fd.Body, func(m ast.Node) bool {
+			as, ok := m.(*ast.AssignStmt)
+			if !ok || len(as.Lhs) != 1 || len(as.Rhs) != 1 {
+				return true
+			}
+			lit, ok := as.Rhs[0].(*ast.FuncLit)
+			if !ok {
+				return true
+			}
+			id, ok := as.Lhs[0].(*ast.Ident)
+			if !ok {
+				return true
+			}
+			self := objOf(info, id)
+			resolves, calls := false, false
+			ast.Inspect(lit.Body, func(q ast.Node) bool {
+				if c, ok := q.(*ast.CallExpr); ok {
+					if f := callee(info, c); f != nil && strings.HasPrefix(f.Name(), "Resolve") {
+						resolves = true
+					}
+					if cid, ok := c.Fun.(*ast.Ident); ok && objOf(info, cid) == self {
+						calls = true
+					}
+				}
+				return true
+			})
+			if resolves && calls {
+				recursive = true
+			}
+			return true
+		})
+		// or the method calls itself
+		ast.Inspect(fd.Body, func(m ast.Node) bool {
+			if c, ok := m.(*ast.CallExpr); ok && callee(info, c) == fn {
+				recursive = true
+			}
+			return true
+		})
+		r.Count("hunted clauses of the order-independence rules (2nd hunt)", 1)
+		r.Check(recursive, "order/flatten-transitive", "FlattenDisjunctions unfolds referred disjunctions transitively", fd.Pos(), "the branches of a resolved disjunction go back through the unfolding function",
+			"flattenDisjunction inlines one level of a referred disjunction, resolved in the schemas the visitor is rewriting: an object visited before the disjunction it refers to sees it unflattened, one visited after sees it flattened — swapping two inputs of different packages changes the generated types (Union[str, int, bool, float] / Union[common.Leaf, bool, float])")
+	}
+	// (b)
+	forEachVeneerClosure(ctx, func(p *packages.Package, fd *ast.FuncDecl, fobj *types.Func, lit *ast.FuncLit) {
+		if fd.Name.Name != "ComposeBuilders" {
+			return
+		}
+		info := p.TypesInfo
+		defs := map[types.Object]ast.Expr{}
+		ast.Inspect(lit.Body, func(q ast.Node) bool {
+			if as, ok := q.(*ast.AssignStmt); ok && as.Tok == token.DEFINE && len(as.Lhs) == len(as.Rhs) {
+				for i, l := range as.Lhs {
+					if id, ok := l.(*ast.Ident); ok {
+						defs[info.Defs[id]] = as.Rhs[i]
+					}
+				}
+			}
+			return true
+		})
+		n := 0
+		ast.Inspect(lit.Body, func(m ast.Node) bool {
+			as, ok := m.(*ast.AssignStmt)
+			if !ok || len(as.Lhs) != 1 || len(as.Rhs) != 1 {
+				return true
+			}
+			ix, ok := ast.Unparen(as.Lhs[0]).(*ast.IndexExpr)
+			if !ok {
+				return true
+			}
+			mt, isMap := info.TypeOf(ix.X).Underlying().(*types.Map)
+			if !isMap {
+				return true
+			}
+			if nt := namedOf(mt.Elem()); nt == nil || nt.Obj().Name() != "Builders" {
+				return true
+			}
+			n++
+			key := exprString(ix.Index)
+			if id, ok := ast.Unparen(ix.Index).(*ast.Ident); ok {
+				if d, ok := defs[objOf(info, id)]; ok {
+					key = exprString(d)
+				}
+			}
+			r.Check(strings.Contains(key, "ReferredPkg") || strings.HasSuffix(key, ".Package"), "siblings/compose-groups-by-package", "builder.ComposeBuilders groups the composable builders", as.Pos(), "one group per package ("+key+")",
+				"the composable builders are grouped by `"+key+"`: two packages carrying the same identifier (two versions of a plugin) are merged into one builder, written in the package of whichever comes first — adding an unreferenced package changes the builder of another")
+			return true
+		})
+		r.Count("groupings of composable builders", n)
+	})
+	r.Floor("groupings of composable builders", 1)
+	c07ContextSortedInPlace(ctx, r)
+	selfTest(ctx, r, "copycheck/jenny-context-not-sorted-in-place", "context_sorted_in_place", true, `package fx
+import (
+	"sort"
+	"github.com/grafana/cog/internal/languages"
+)
+func index(context languages.Context) int {
+	sort.Slice(context.Schemas, func(i, j int) bool { return context.Schemas[i].Package < context.Schemas[j].Package })
+	return len(context.Schemas)
+}`, c07ContextSortedInPlace)
+	selfTest(ctx, r, "copycheck/jenny-context-not-sorted-in-place", "context_copy_sorted", false, `package fx
+import (
+	"sort"
+	"github.com/grafana/cog/internal/ast"
+	"github.com/grafana/cog/internal/languages"
+)
+func index(context languages.Context) int {
+	schemas := append([]*ast.Schema(nil), context.Schemas...)
+	sort.Slice(schemas, func(i, j int) bool { return schemas[i].Package < schemas[j].Package })
+	return len(schemas)
+}`, c07ContextSortedInPlace)
+}
+
+func c07ContextSortedInPlace(ctx *Ctx, r *Report) {
+	n := 0
+	ctx.AllFuncDecls(func(p *packages.Package, fd *ast.FuncDecl, obj *types.Func) {
+		if fd.Body == nil {
+			return
+		}
+		info := p.TypesInfo
+		params := map[types.Object]bool{}
+		if fd.Type.Params != nil {
+			for _, f := range fd.Type.Params.List {
+				for _, nm := range f.Names {
+					if nt := namedOf(info.TypeOf(nm)); nt != nil && nt.Obj().Name() == "Context" && nt.Obj().Pkg() != nil && strings.HasSuffix(nt.Obj().Pkg().Path(), "internal/languages") {
+						params[info.Defs[nm]] = true
+					}
+				}
+			}
+		}
+		if len(params) == 0 {
+			return
+		}
+		ast.Inspect(fd.Body, func(m ast.Node) bool {
+			c, ok := m.(*ast.CallExpr)
+			if !ok || len(c.Args) == 0 {
+				return true
+			}
+			fn := callee(info, c)
+			if fn == nil || fn.Pkg() == nil || (fn.Pkg().Path() != "sort" && fn.Pkg().Path() != "slices") {
+				return true
+			}
+			if !strings.HasPrefix(fn.Name(), "Sort") && fn.Name() != "Slice" && fn.Name() != "SliceStable" && fn.Name() != "Strings" && fn.Name() != "Stable" && fn.Name() != "Reverse" {
+				return true
+			}
+			root := ast.Unparen(c.Args[0])
+			for {
+				if s, ok := root.(*ast.SelectorExpr); ok {
+					root = ast.Unparen(s.X)
+					continue
+				}
+				break
+			}
+			id, ok := root.(*ast.Ident)
+			if !ok || !params[objOf(info, id)] || root == ast.Unparen(c.Args[0]) {
+				return true
+			}
+			n++
+			r.Bad("copycheck/jenny-context-not-sorted-in-place", fmt.Sprintf("%s sorts %s", ctx.FuncName(obj), exprString(c.Args[0])), c.Pos(),
+				fmt.Sprintf("%s sorts %s in place: languages.Context travels by value and shares that slice with every other jenny — the jennies that run afterwards see another order than without this one (a file rendered from extra_files_templates changes with api_reference: true)", ctx.FuncName(obj), exprString(c.Args[0])))
+			return true
+		})
+	})
+	r.Count("in-place sorts of a slice held by a languages.Context parameter", n)
+	if n == 0 {
+		r.OK("copycheck/jenny-context-not-sorted-in-place", "functions receiving a languages.Context", token.NoPos, "none sorts a slice of the context in place")
+	}
 }
